@@ -235,6 +235,11 @@ def oracle_component_repeat(R, tier, seed):
         ("ComputeThrustLoads", lambda: ComputeThrustLoads(surface=psurf), lambda: {k: v for k, v in dict(pm_inputs(), engine_thrusts=draw((1, 2), 1e4, 6e4)).items() if k not in ("point_masses", "load_factor")}),
         ("FuelLoads", lambda: _FuelLoads(surface=gen.wingbox_surface(mesh, symmetry=True)), lambda: {"fuel_vols": draw(ny - 1), "nodes": nodes0 + rng.normal(size=(ny, 3)) * 0.01, "fuel_mass": float(draw((), 1e4, 5e4)), "load_factor": float(draw((), 1, 2.5))}),
     ]
+    from openaerostruct.common.atmos_comp import AtmosComp
+    # the atmosphere at ONE altitude and two Mach numbers (a Mach sweep at fixed altitude): a seeded change that skipped the
+    # table look-ups - and, by an indentation slip, the speed - when the altitude had not changed was only seen as a broken
+    # proof obligation without this case
+    cases.append(("AtmosComp", lambda: AtmosComp(), lambda: {"altitude": 10668.0, "Mach_number": float(rng.uniform(0.2, 0.9))}))
     for cname, mk, ins in cases:
         A, B = ins(), ins()
 
